@@ -6,7 +6,8 @@ from vf import gen, schema
 PROP = 'C20'
 REJECTIONS = ['wrong-type', 'outside-enum', 'non-numeric', 'wrong-ref-class', 'bad-origin-ref', 'bad-cast-dtype',
               'duplicate-dataset', 'unknown-keyword', 'name-not-str', 'bad-assign', 'frame-no-channels']
-FAILED_WRITES = ['missing-data', 'inconsistent-dimension', 'flush-error', 'hc-breach-at-write', 'unequal-rows']
+FAILED_WRITES = ['missing-data', 'inconsistent-dimension', 'flush-error', 'hc-breach-at-write', 'unequal-rows',
+                 'index-not-1d', 'hc-nonuniform-index']
 META = {
     'level': 'fault_enumeration',
     'rule': ('one evaluation = one history pair: the specification with rejected add_*/assignment calls (or a failed write) '
@@ -374,6 +375,40 @@ def run_case(case):
         except Exception as e:   # noqa
             first = ('exc', type(e).__name__, str(e)[:200])
         second = S.do_write(sp, b, path, harness.scratch_dir())
+    elif cause == 'index-not-1d':
+        # an indexed frame whose index channel first gets 2-D data (refused while the frame is set up from the data),
+        # then the proper 1-D data with another range
+        import numpy as np
+        n = r.choice([4, 9])
+        sp['ops'].append(gen.channel_op('FW-INDEX', '<f8', (n,), fill={'kind': 'lin', 'start': r.choice([10.0, -5.0]), 'step': 0.5}))
+        sp['ops'].append(gen.channel_op('FW-CURVE', '<f4', (n,), fill={'kind': 'pos', 'tag': 7}))
+        ci = len(sp['ops']) - 2
+        sp['ops'].append(gen.frame_op('FW-FRAME', [ci, ci + 1], index_type=r.choice(['BOREHOLE-DEPTH', 'TIME'])))
+        for o in sp['ops'][-3:]:
+            o['lf'] = 0
+        fresh_spec = copy.deepcopy(sp)
+        b = S.build(sp)
+        bad = np.arange(2 * n, dtype=np.float64).reshape(n, 2) * 100.0 + 5000.0
+        first = S.do_write(sp, b, path, harness.scratch_dir(), data={'FW-INDEX': bad})
+        second = S.do_write(sp, b, path, harness.scratch_dir())
+    elif cause == 'hc-nonuniform-index':
+        # high-compatibility mode refuses a non-uniform index; the same rows without the irregular tail are fine
+        from vf.checks import c17
+        sp = c17.compliant_spec(r)
+        for o in sp['ops']:
+            if o['op'] == 'origin':
+                o['attrs']['file_set_number'] = 7      # (the default is a random number)
+        di = next(i for i, o in enumerate(sp['ops']) if o.get('name') == 'DEPTH')
+        n = sp['ops'][di]['data']['shape'][0]
+        keep = n - 1 if n <= 3 else r.choice([n - 1, n - 2])
+        vals = [100.0 + 0.5 * j for j in range(keep)] + [100.0 + 0.5 * keep + 7.25 * (j + 1) for j in range(n - keep)]
+        sp['ops'][di]['data']['fill'] = {'kind': 'seq', 'values': vals}
+        sp['write'] = {'output_chunk_size': 2 ** 16, 'hc': True}
+        b = S.build(sp)
+        first = S.do_write(sp, b, path, harness.scratch_dir())
+        second = S.do_write(sp, b, path, harness.scratch_dir(), to_idx=keep)
+        fresh_spec = copy.deepcopy(sp)
+        fresh_spec['write']['to_idx'] = keep
     elif cause == 'unequal-rows':
         ci, co = chans[-1]
         import numpy as np
